@@ -166,7 +166,7 @@ theorem C07_branch_id_terminals (T : Tables) (hT : T.WellFormed) (trig : Trig) (
     · simp at h
 
 /-- the components that `transform_circuit` translates -/
-def translated (T : Tables) (cs : List Component) : List Component := cs.filter (fun c => T.hasKind c.kind)
+def translated (T : Tables) (cs : List Component) : List Component := cs.filter T.selects
 
 /-- **C07 (position independence).**  The branch list of the converted circuit is, entry by
 entry and in order, the result of the table's translator applied to that entry's own
@@ -197,33 +197,41 @@ theorem C07_one_to_one (T : Tables) (hT : T.WellFormed) (trig : Trig) (harm : Ha
   have := (C07_position_independent T trig harm C w wres N h).1
   exact forall₂_map_eq (fun c b hcb => (C07_branch_id_terminals T hT trig harm c w wres b hcb).1) this
 
-/-- nothing is dropped exactly when every non-ground kind has a table entry (and `ground`
-has none) -/
-theorem C07_nothing_dropped_iff (T : Tables) (hg : T.hasKind "ground" = false) (cs : List Component) :
-    translated T cs = Spec.nonGround cs ↔ ∀ c ∈ cs, c.kind ≠ "ground" → T.hasKind c.kind = true := by
+/-- **C07 (the conversion never drops a component).**  The generated comprehension of
+`transform_circuit` selects every non-ground component, whatever its type string … -/
+theorem C07_never_drops : Gen.tables.dropUnknown = false := by decide
+
+/-- … so for **every** component list the translated components are exactly the non-ground
+components — and hence (`C07_one_to_one`) a successful conversion has exactly one branch per
+non-ground component, same identifiers, same order.  (Until fix 766697f components whose type was
+no key of the table were skipped silently.) -/
+theorem C07_nothing_dropped (cs : List Component) : translated Gen.tables cs = Spec.nonGround cs := by
   unfold translated Spec.nonGround
-  constructor
-  · intro h c hc hk
-    have : c ∈ cs.filter (fun c => decide (c.kind ≠ "ground")) := by simp [hc, hk]
-    rw [← h] at this
-    simpa using (List.mem_filter.mp this).2
-  · intro h
-    apply List.filter_congr
-    intro c hc
-    by_cases hk : c.kind = "ground"
-    · simp [hk, hg]
-    · simp [hk, h c hc hk]
+  apply List.filter_congr
+  intro c _
+  simp [Tables.selects, C07_never_drops]
 
+/-- **C07 (an untranslatable component is an error, wherever it stands).**  If some non-ground
+component of the circuit has a type without table entry, the conversion raises; it never
+returns a network without that component. -/
+theorem C07_unknown_kind_raises (T : Tables) (hT : T.dropUnknown = false) (trig : Trig) (harm : Harm)
+    (C : Circuit) (w wres : Rat) (c : Component) (hc : c ∈ C.components) (hg : c.kind ≠ "ground")
+    (hk : T.transformers.lookup c.kind = none) : ∃ e, transformCircuit T trig harm C w wres = .error e := by
+  have hsel : c ∈ C.components.filter T.selects := by
+    simp [List.mem_filter, hc, Tables.selects, hT, hg]
+  have hfail : (fun c => match transformComponent T trig harm c w wres with
+      | some r => r
+      | none => Except.error Err.keyError) c = .error .keyError := by
+    simp [transformComponent, hk]
+  obtain ⟨e, he⟩ := mapM_error_of_mem (fun c => match transformComponent T trig harm c w wres with
+      | some r => r
+      | none => Except.error Err.keyError) _ c hsel _ hfail
+  have he2 : transformBranches T trig harm C.components w wres = .error e := he
+  exact ⟨e, by simp [transformCircuit, he2, bind, Except.bind]⟩
+
+/-- every kind the component module can construct (except `ground`) does have an entry, so the
+error above is reserved for type strings that no constructor produces -/
 theorem ground_not_translated : Gen.tables.hasKind "ground" = false := by decide
-
-/-- **C07 (nothing dropped).**  For every list of components of kinds the component module can
-construct, the translated components are exactly the non-ground components: nothing is
-silently omitted. -/
-theorem C07_nothing_dropped (cs : List Component) (h : ∀ c ∈ cs, ∃ s ∈ ctorSpecs, c.kind = s.kind) :
-    translated Gen.tables cs = Spec.nonGround cs :=
-  (C07_nothing_dropped_iff Gen.tables ground_not_translated cs).mpr (fun c hc hk => by
-    obtain ⟨s, hs, he⟩ := h c hc
-    rw [he]; exact C07_table_total s hs (he ▸ hk))
 
 /-! ## faithfulness, kind by kind
 
@@ -1101,28 +1109,39 @@ theorem C07_open_switch_network (pre post : List (Branch String GQ)) (z : String
       · simp [hc, hy]
       · simp [hc]
 
-/-- **finding candidate (open).**  The constructors of the periodic sources accept a fundamental
-`w = 0` (their guard is `w < 0`), but such a component can never be translated: the translator
-divides by the fundamental (`period = 2*np.pi/w0`) and raises `ZeroDivisionError` at every analysis
-frequency.  An accepted component that has no branch and no rejection — the same pattern as
-`V_ref = 0` before fix e174570.  (`periodicOK` excludes it through `2·w_res < w0`, `0 ≤ w_res`.) -/
-theorem C07_zero_fundamental_counterexample :
-    (∃ s ∈ ctorSpecs, s.fn = "periodic_voltage_source" ∧
-      s.construct (some "V") (some ["1", "0"]) [("wavetype", .str "rect"), ("V", .num 1), ("w", .num 0)]
-        = .ok ⟨"periodic_voltage_source", "V", ["1", "0"],
-            [("wavetype", .str "rect"), ("V", .num 1), ("w", .num 0), ("phi", .num 0), ("R", .num 0)]⟩) ∧
-    ∀ w : Rat, transformComponent Gen.tables (fun _ => (1, 0)) (fun _ _ _ _ => (1, 0))
-      ⟨"periodic_voltage_source", "V", ["1", "0"],
-        [("wavetype", .str "rect"), ("V", .num 1), ("w", .num 0), ("phi", .num 0), ("R", .num 0)]⟩ w Gen.defaultWRes
-      = some (.error .zeroDivision) := by
-  constructor
-  · decide +kernel
-  · intro w
-    have hl : Gen.tables.transformers.lookup "periodic_voltage_source" = some "periodic_voltage_source" := by decide
-    have hin : "rect" ∈ Gen.tables.waves := by decide
-    simp only [transformComponent, hl, tspec_periodic_voltage_source, TSpec.run]
-    simp [preRead, Component.get?, Component.strOf, Component.float, periodicFunction, hin, bind, Except.bind,
-      pure, Except.pure, List.lookup]
+/-- every constructor that takes a `wavetype` (the periodic sources) guards its fundamental with
+`if w <= 0: raise ValueError` (generated table) -/
+theorem C07_periodic_fundamental_guarded :
+    ∀ s ∈ ctorSpecs, ("wavetype", PTy.str, none) ∈ s.params →
+      (⟨"w", Cmp.le, 0, "ValueError"⟩ : Guard) ∈ s.guards := by decide
+
+/-- **C07 (an accepted periodic source has a positive fundamental).**  Whatever a periodic-source
+constructor accepts was called with `w > 0` — so the component has a finite period, the
+translator's division `2*np.pi/w0` is defined, and `C07_harmonic` applies to it.  (Until fix
+149a545 the guard was `w < 0`: `w = 0` was accepted and the translator raised `ZeroDivisionError`
+at every analysis frequency — neither rejected nor translated.) -/
+theorem C07_periodic_fundamental_positive (s : CtorSpec) (hs : s ∈ ctorSpecs)
+    (hp : ("wavetype", PTy.str, none) ∈ s.params) (id : String) (nodes : List String)
+    (args env : List (String × Val)) (henv : bindParams s.params args = .ok env) (q : Rat)
+    (hq : env.lookup "w" = some (.num q)) (c : Component)
+    (hok : s.construct (some id) (some nodes) args = .ok c) : 0 < q := by
+  by_contra hneg
+  have hle : q ≤ 0 := not_lt.mp hneg
+  have hg := C07_periodic_fundamental_guarded s hs hp
+  have hfire : (⟨"w", Cmp.le, 0, "ValueError"⟩ : Guard).check env = .error .valueError := by
+    simp [Guard.check, hq, Cmp.holds, hle, errOfExc]
+  obtain ⟨e, he⟩ := forM_error_of_mem (fun g : Guard => g.check env) s.guards _ hg _ hfire
+  have he' : s.guards.forM (fun g => g.check env) = .error e := he
+  unfold CtorSpec.construct at hok
+  simp [pure, Except.pure, bind, Except.bind, henv, he'] at hok
+
+/-- … and with `w = 0` both constructors raise `ValueError` (model evaluation on the generated table) -/
+theorem C07_zero_fundamental_rejected :
+    (Gen.tables.ctor? "periodic_voltage_source").map (fun s => s.construct (some "V") (some ["1", "0"])
+        [("wavetype", .str "rect"), ("V", .num 1), ("w", .num 0)]) = some (.error .valueError) ∧
+    (Gen.tables.ctor? "periodic_current_source").map (fun s => s.construct (some "I") (some ["0", "1"])
+        [("wavetype", .str "saw"), ("I", .num 1), ("w", .num 0), ("phi", .num 0)]) = some (.error .valueError) := by
+  decide +kernel
 
 /-! ## non-vacuity: concrete inputs that meet the hypotheses -/
 
